@@ -115,8 +115,12 @@ def main():
                     e["s0q"] = quantise(2 * s0, 1e-6)
                     e["thetaq"] = quantise(theta, 1e-6)
                     e["A1"], e["A2"], e["x"] = quantise(a1, 1e-4), quantise(a2, 1e-4), quantise(x, 1e-4)
+                    # the annuity itself: A(T) (r + theta) = 1 - exp(-(r + theta) T)   (sign and size of the fixed leg)
+                    rt = 0.03 + theta
+                    e["A1m"], e["RTm"], e["omx"] = quantise(a1, 1e-3), quantise(rt, 1e-4), quantise(1.0 - math.exp(-rt * T), 1e-7)
                 else:
                     e["s0q"], e["thetaq"], e["A1"], e["A2"], e["x"] = 0, 0, 0, 0, 0
+                    e["A1m"], e["RTm"], e["omx"] = 0, 0, 0
                 if d == 1:
                     thr = cf.implied_cds_threshold(cds_spread=spread, recovery_rate=R, h0=h)
                     e["theta_at_implied"] = exact_int(cf._theta(thr), tol=1e-7)
